@@ -174,7 +174,7 @@ def _ascii_twin(W, st, prefs):
                 fh.write(_to_ascii(text))
         if not any_non_ascii:
             return None
-        T = Project(d, ropefolder=None, **{k: v for k, v in prefs.items() if k in ("automatic_soa",)})
+        T = Project(d, ropefolder=None, **{k: v for k, v in prefs.items() if k in ("automatic_soa", "ignore_syntax_errors")})
         try:
             ch = compute_refactoring(T, st)
             if ch is None or not ch.changes:
@@ -388,6 +388,15 @@ class ByteStoreEngine(Engine):
         files = [e["p"] for e in init if not e.get("dir")]
         texts = {e["p"]: e["text"] for e in init if not e.get("dir")}
         steps = []
+        if swarm["program"] and rng.random() < 0.15:
+            # the project tolerates modules it cannot parse (analysed as if empty): one module is
+            # left half-typed; requests on it or passing over it must not damage it
+            swarm["ignore_syntax_errors"] = True
+            cand = [q for q in files if q.endswith(".py") and texts[q]]
+            if cand:
+                q = rng.choice(cand)
+                texts[q] = texts[q] + ("" if texts[q].endswith("\n") else "\n") + "def half_typed(:\n    pass\n"
+                steps.append({"op": "edit", "path": q, "text": texts[q], "held": False, "id": 9000})
         w = swarm["w"]
         kinds = [k for k, n in w.items() for _ in range(n)]
         nid = 1
@@ -517,6 +526,8 @@ class ByteStoreEngine(Engine):
         swarm = trace.get("swarm") or {}
         out.swarm = swarm
         prefs = {"automatic_soa": bool(swarm.get("soa", True)), "save_history": True, "save_objectdb": False}
+        if swarm.get("ignore_syntax_errors"):
+            prefs["ignore_syntax_errors"] = True
         W = World(trace["init"], limit=100, ropefolder=ROPEFOLDER, prefs=prefs, tag="c16-", stamp=True)
         try:
             model = HistoryModel(TreeModel(W.snapshot()), 100)
